@@ -38,7 +38,7 @@ def array_text(rng, ty, name, rows, cols, shape, params=(), ragged=None):
 def cases(rng, quick, gr):
     # scalars of every type with type-compatible initialisers
     inits = {"int": ["5", "-3", "2 + 3 * 4", "2 ** 10", "7 - 9"], "float": ["1.5", "3", "-2.5e-1", "pi", "sqrt(2)", "7 / 2", "2 ** -1"],
-             "complex": ["1+2j", "3", "2.5", "-1j", "2 * (1+1j)", "exp(1j)"], "bool": ["True", "False"], "str": ['"abc"', '""', '"a b"']}
+             "complex": ["1+2j", "3", "2.5", "-1j", "2 * (1+1j)", "exp(1j)"], "bool": ["True", "False"], "str": ['"abc"', '""', '"a b"', '"x\ty"', '"a  b   c"', '"\t"', '" lead and trail  "']}
     for ty, lst in inits.items():
         for init in lst:
             use = "Op(v) | 0\n" if ty not in ("int",) else "Op(v, v + 1) | v * 0\n"
